@@ -27,7 +27,10 @@ SHAPED = (["kind:" + k for k in enumgen.KIND_NAMES] + ["k:%d" % k for k in range
 GEN = [None]
 
 
-def make_cases(ctx, cid, en, mode=None):
+CODEC_SETS = [[], [], ["json"], ["text"], ["sql"], ["json", "text", "sql"]]
+
+
+def make_cases(ctx, cid, en, mode=None, flags=None):
     T = en["T"]
     if GEN[0] is None:
         GEN[0] = enumgen.EnumGen(ctx.rng)
@@ -42,11 +45,18 @@ def make_cases(ctx, cid, en, mode=None):
                           + [v for _, v in decl if v < 0] + [v | w for _, v in decl if v < 0 for _, w in decl if w > 0]))
         negs = [v for v in negs if lo <= v < 0]
     rerun = ctx.rng.random() < 0.35         # a second `enum -bit` run over the package that holds the first run's output
+    codec = ctx.rng.choice(CODEC_SETS) if flags is None else flags      # -bit together with the codec flags
+    run = {"args": ["enum", "-bit"] + ["-" + f for f in codec] + lay["sel"]}
+    hist = enumgen.edit_history(ctx, en, lay) if ctx.rng.random() < 0.6 else None
+    files0, runs, edit = lay["files"], [run] * (2 if rerun else 1), "none"
+    if hist:
+        files0, steps, edit = hist
+        runs, rerun = [run] + steps + [run], True
     gx = [enumgen.generated_sexp(en, decl)] if rerun else []
-    main = {"id": cid, "en": en, "decl": decl, "files": lay["files"], "mode": lay["mode"] + ("+spread" if lay["spread"] and lay["mode"].startswith("file") else ""),
-            "runs": [{"args": ["enum", "-bit"] + lay["sel"]}] * (2 if rerun else 1), "rerun": rerun,
+    main = {"id": cid, "en": en, "decl": decl, "files": files0, "codec": codec, "edit": edit, "mode": lay["mode"] + ("+spread" if lay["spread"] and lay["mode"].startswith("file") else ""),
+            "runs": runs, "rerun": rerun,
             "oracle": {".": enumgen.oracle_c14(en, decl, hi, negs)},
-            "sexp": enumgen.case_sexp(cid, "c14", en, gx + [["hi", str(hi)], ["neg"] + [str(v) for v in negs]]), "cmd": "shoot enum -bit " + " ".join(lay["sel"]),
+            "sexp": enumgen.case_sexp(cid, "c14", en, gx + [["hi", str(hi)], ["neg"] + [str(v) for v in negs]]), "cmd": "shoot " + " ".join(run["args"]) + (" ; edit(%s) ; again" % edit if hist else ""),
             "hi": hi, "kind": "main"}
     raw = {"id": cid + "r", "en": en, "decl": decl, "sexp": enumgen.case_sexp(cid + "r", "c14raw", en, gx),
            "cmd": "shoot enum -bit -type=%s && go build" % T, "kind": "raw"}
@@ -56,6 +66,8 @@ def make_cases(ctx, cid, en, mode=None):
         if not gens:
             return
         fs = dict(c["files"])
+        for step in c["runs"]:
+            fs.update(step.get("write", {}))
         fs.update(gens)
         enumgen.write_pkg(os.path.join(b.root, "c_%sr" % c["id"]), fs)        # the output as emitted
         for rel, gen in gens.items():
@@ -143,6 +155,8 @@ def run(ctx, obl):
             res.hist("shape", main["en"].get("shape", "corpus"))
             res.hist("run-mode", main["mode"])
             res.hist("rerun", str(main["rerun"]))
+            res.hist("codec-flags-with-bit", "+".join(main["codec"]) or "none")
+            res.hist("edit-history", main["edit"])
             vals = [v for _, v in main["decl"]]
             res.hist("flags", str(sum(1 for v in vals if v and v & (v - 1) == 0)))
             res.hist("composites", str(sum(1 for v in vals if v and v & (v - 1) != 0)))
@@ -159,12 +173,15 @@ def run(ctx, obl):
                     v.setdefault("sources", c.get("files"))
                     v.setdefault("enum", c["en"])
                     v.setdefault("mode", c.get("mode"))
+                    v.setdefault("flags", c.get("codec"))
     res.extra["value_flag_pairs_executed"] = npairs
     res.rule = ("beyond the grammar, also asserted (against the exact general statement Bit.specGeneral): enums with a value that is no union of "
                 "declared bits, with arbitrary overlapping values, and signed enums with a flag on the sign bit (negative values, `_max` negative); "
                 "bit-flag enums generated from the grammar (1-8 single-bit flags, contiguous `1 << iota` runs or scattered decimal/hex/shift "
                 "literals in any order, optional zero constant, 0-3 declared composites `A | B`, all 10 integer kinds, prefixed or plain names); "
-                "ONE `shoot enum -bit` run generates T alone (-type=T), after a companion type (-type=Comp,T), or by -file= (constants spread over several "
+                "-bit is combined with no codec flag, -json, -text, -sql or all three; in the file layouts with constants spread over several files "
+                "60%% of the cases are a run / hand edit of ANOTHER file (a constant added, a value changed, a constant removed) / identical run history, "
+                "expectation = the single-run model of the edited sources; ONE `shoot enum -bit` run generates T alone (-type=T), after a companion type (-type=Comp,T), or by -file= (constants spread over several "
                 "files, optionally a companion declared first), in 35%% of the cases run a second time over the package that holds the first run's output; the emitted file is compiled as it is (finding: undefined `_<t>_map`) and, with the defined table "
                 "substituted, String() is executed for every value in [0, 2^(top+2)) (clipped to the type) and Has/Add/Remove for every pair of "
                 "such a value with every declared constant. non-trivial = distinct enum in WF; %d (value, flag) pairs executed" % npairs)
@@ -181,7 +198,7 @@ def replay(ctx, payload):
     if not en:
         print(payload.get("case") or payload)
         return 0
-    pair = make_cases(ctx, "replay", en, mode=((payload.get("mode") or "").split("+")[0] or None))
+    pair = make_cases(ctx, "replay", en, mode=((payload.get("mode") or "").split("+")[0] or None), flags=payload.get("flags"))
     for fn, src in pair[0]["files"].items():
         print("---- %s\n%s" % (fn, src))
     cases, impl, model = run_cases(ctx, [pair])
